@@ -49,6 +49,13 @@ Theorem C18_dom_lt_meets_the_definition_up_to_four_nodes : forall n g entry,
     (forall v d, In (v, Some d) m -> v <> entry /\ is_idom g entry d v).
 Proof. exact lt_small_meets_the_definition. Qed.
 Print Assumptions C18_dom_lt_meets_the_definition_up_to_four_nodes.
+(* the code iterates the sets pred[w] and bucket[v] in an order that depends on memory addresses; with both iterated in the
+   opposite order the model returns the same table on every graph of three and four nodes (same finite domain) *)
+Theorem C18_the_iteration_order_of_the_sets_does_not_matter_up_to_four_nodes : forall n g entry,
+  (3 <= n <= 4)%nat -> length g = n -> Forall (fun l => subseq l (range n) = true) g -> In entry (range n) ->
+  lt_row_ord (@rev Z) g entry = lt_row g entry /\ lt_row g entry <> None.
+Proof. exact lt_small_any_of_two_orders. Qed.
+Print Assumptions C18_the_iteration_order_of_the_sets_does_not_matter_up_to_four_nodes.
 (* how a row reads: -2 no entry in the table, -1 the entry, else the dominator *)
 Theorem C18_rows_read_the_table : forall m v,
   (row_of m v = -2 /\ forall i, ~ In (v, i) m) \/ (row_of m v = -1 /\ In (v, None) m) \/ In (v, Some (row_of m v)) m.
